@@ -95,7 +95,8 @@ int64_t pick_total(Rng &r, const NormDef &nd, int64_t max_samples) {
 int pick_gen(Rng &r, int dtype, const Profile &pf) {
     if (pf.no_omission && dt_bits[dtype] <= 8) { static const int g[] = {G_RAMP, G_RANDOM, G_ALT}; return g[r.below(3)]; }     // never a constant block
     if (pf.cblocks && r.chance(0.6)) return G_CBLOCKS;
-    if (dt_is_float(dtype)) { static const int g[] = {G_RAMP, G_RANDOM, G_DECADES, G_RANDOM, G_ALT, G_CONST}; return g[r.below(6)]; }
+    if (dt_is_float(dtype)) { static const int g[] = {G_RAMP, G_RANDOM, G_DECADES, G_RANDOM, G_ALT, G_CONST, G_OFFSET}; return g[r.below(7)]; }
+    if (dt_bits[dtype] >= 16 && r.chance(0.14)) return G_OFFSET;
     static const int g[] = {G_RAMP, G_RANDOM, G_RANDOM, G_ALT, G_CONST, G_CBLOCKS};
     return g[r.below(6)];
 }
@@ -276,10 +277,14 @@ Plan gen_plan(const Profile &pf, uint64_t seed) {
         double ticks_per_sample = 1073741824.0 / (double) std::max<uint32_t>(1, s.p[0]);
         int64_t utc = (int64_t) r.range(1LL << 55, 1LL << 56);
         int64_t step_hint = std::max<int64_t>(1, s.total / (n + 1));
+        // UTC entries are usually written on a timer (every 0.05 .. 200 s), not per block: at MHz rates the pairs are 10^5 .. 10^11 samples apart,
+        // whatever the number of samples stored (products of id distance and tick distance beyond 2^63 inside one segment)
+        const bool timer_spacing = (pf.prop == "C12" && r.chance(0.4)) || (pf.prop != "C12" && pf.utcs && r.chance(0.05));
         for (int i = 0; i < n; ++i) {
             Op o; o.kind = OP_UTC; o.sig = s.sig; o.prod = s.prod; o.a = id; o.b = utc;
             out.push_back(o);
             int64_t d = r.chance(0.3) ? r.range(1, 10) : r.range(1, 2 * step_hint);
+            if (timer_spacing) { double secs = 0.05 * pow(4000.0, (double) r.range(0, 1000) / 1000.0); d = std::max<int64_t>(1, (int64_t) ((double) std::max<uint32_t>(1, s.p[0]) * secs)); }
             if (pf.prop != "C12" && r.chance(0.04)) d = 0;     // a repeated sample id (a logger stamping the latest id while the stream stalls); C12 itself states increasing ids
             id += d;
             double drift = 1.0 + (double) r.range(-200, 200) / 1e6;
@@ -350,6 +355,14 @@ Plan gen_plan(const Profile &pf, uint64_t seed) {
     }
     for (size_t i = 0; i < sigs.size(); ++i) if (!defined[i]) P.ops.push_back(sigdefs[i]);
     if (pf.flushes && r.chance(0.3)) { Op f; f.kind = OP_FLUSH; P.ops.push_back(f); }
+    // A file without any time-series data ends (before END) with whatever was written last instead of the summaries that close appends:
+    // definitions and user data only, the last item of a size that matters to the end-of-file logic (empty, or 28 bytes = header-sized with its CRC).
+    if (!pf.engine_d && pf.users && r.chance(0.04)) {
+        std::vector<Op> keep; for (auto &o : P.ops) if (o.kind == OP_SRC || o.kind == OP_SIG || o.kind == OP_USER || o.kind == OP_FLUSH) keep.push_back(o);
+        Op u; u.kind = OP_USER; u.meta = (int) r.range(0, 4095); u.gs = r.next();
+        int c = (int) r.below(4); if (c == 0) { u.st = 1; u.n = 0; } else if (c == 1) { u.st = 1; u.n = 28; } else if (c == 2) { u.st = 2; u.n = 27; } else { u.st = (int) r.range(1, 3); u.n = r.range(1, 64); }
+        keep.push_back(u); P.ops = keep;
+    }
     { Op c; c.kind = OP_CLOSE; P.ops.push_back(c); }
     // fsr sample ids are stored relative to the next expected id so that dropping an op keeps the structure
     { std::map<int, int64_t> next;
